@@ -184,11 +184,14 @@ def hist_suite(run, name, harness_args, nontrivial_rule, known=None, use_driver=
             fid = l.split(" ")[1]
             run.known_hits[fid] = run.known_hits.get(fid, 0) + 1
     tainted = set()   # history start indexes whose spec comparison is suspended by a known finding
+    starts = []
+    cur = 0
+    for j, l in enumerate(r.trace):
+        if l.startswith("#H "):
+            cur = j
+        starts.append(cur)
     def hstart(i):
-        for j in range(i, -1, -1):
-            if r.trace[j].startswith("#H "):
-                return j
-        return 0
+        return starts[i] if 0 <= i < len(starts) else 0
     fails = sorted([(i, "oracle", t) for i, t in r.spec] + [(i, "harness", t) for i, t in r.hspec])
     for i, src, text in fails:
         h = hstart(i)
@@ -354,7 +357,10 @@ def check_C07(run):
 def check_C08(run):
     check_hist_generic(run, [("reopen", "reopen", 300, 6000, RULE_HIST + "; profile reopen: all structures, Close/Open after half of "
                               "the transactions with the full observation battery before and after (harness-side comparison "
-                              "'#SPEC reopen-changed' + model + spec)")])
+                              "'#SPEC reopen-changed' + model + spec)"),
+                             ("sparse", "sparse", 60, 2500, RULE_HIST + "; profile sparse: key/value data in HintBPTSparseIdxMode with keys of "
+                              "different lengths, reopens with the observation battery (sealed segments are found again through the "
+                              "persisted root-index and bucket-meta records)")])
 
 
 def check_C12(run):
